@@ -52,13 +52,14 @@ Inductive ev :=
                                 not compared (accrual, two steps advanced by one shared event: see NOTES.md) *)
 
 (* ---- setters ---------------------------------------------------------------------------- *)
-Definition set_enabled b s := mkSt b (completed s) (value s) (steps s) (ignore s) (tmo s) (win s).
-Definition set_completed b s := mkSt (enabled s) b (value s) (steps s) (ignore s) (tmo s) (win s).
-Definition set_value v s := mkSt (enabled s) (completed s) v (steps s) (ignore s) (tmo s) (win s).
-Definition set_steps l s := mkSt (enabled s) (completed s) (value s) l (ignore s) (tmo s) (win s).
-Definition set_ignore b s := mkSt (enabled s) (completed s) (value s) (steps s) b (tmo s) (win s).
-Definition set_tmo d s := mkSt (enabled s) (completed s) (value s) (steps s) (ignore s) d (win s).
-Definition set_win d s := mkSt (enabled s) (completed s) (value s) (steps s) (ignore s) (tmo s) d.
+(* (written with a match so that unfolding them does not copy the state term) *)
+Definition set_enabled b s := match s with mkSt _ c v l i t w => mkSt b c v l i t w end.
+Definition set_completed b s := match s with mkSt e _ v l i t w => mkSt e b v l i t w end.
+Definition set_value x s := match s with mkSt e c _ l i t w => mkSt e c x l i t w end.
+Definition set_steps x s := match s with mkSt e c v _ i t w => mkSt e c v x i t w end.
+Definition set_ignore b s := match s with mkSt e c v l _ t w => mkSt e c v l b t w end.
+Definition set_tmo d s := match s with mkSt e c v l i _ w => mkSt e c v l i d w end.
+Definition set_win d s := match s with mkSt e c v l i t _ => mkSt e c v l i t d end.
 
 (* ---- configuration-derived values --------------------------------------------------------- *)
 (* Counter._initialize: hit_value = count_interval, sign forced by the direction *)
